@@ -48,8 +48,9 @@ def isBusinessDay (cal : Int) (dt : PyDate) : Option Bool :=
     | some false => some true
     | none => none
 
-/-- Fuel used by the model: no calendar has 40 consecutive non-business days (validated
-exhaustively by the correspondence: the implementation terminates and agrees). -/
+/-- Fuel used by the model: no calendar has 40 consecutive non-business days — proved for held dates of
+1917 … 2197 (ten evaluations suffice: Props/C14g, C14h), validated exhaustively by the correspondence for the rest
+of 1901 … 2199 (the implementation terminates and agrees). -/
 def adjustFuel : Nat := 40
 
 /-- `Calendar.adjust(dt, bd_type)` on enum values: the generic algorithm at the generated predicates. -/
